@@ -21,6 +21,10 @@ ECHO, ICANON = _termios.ECHO, _termios.ICANON
 VMIN, VTIME = _termios.VMIN, _termios.VTIME
 
 
+class WouldBlock(AnalysisError):
+    """The modelled code waits for something that can never arrive."""
+
+
 class OS:
     def __init__(self, tty_attrs=None, flags=2, main_thread=True, platform="linux", handler="default_int_handler"):
         cc = [bytes([i + 1]) for i in range(32)]
@@ -42,6 +46,10 @@ class OS:
         self.crash_with = "KeyboardInterrupt"
         self.trace = []
         self.written = []
+        self.select_calls = []
+        self.on_select = None
+        self.pipes = {}          # write end -> read end
+        self.tick = 0.25         # the clock advances by this much at every time.time() call
         self.stack = []          # the interpreter's call stack (set by install)
 
     # ---- snapshot of everything leaving a context must restore -------------------------------------
@@ -131,6 +139,7 @@ class OS:
             self.fds.add(fd)
             self.flags[fd] = 0
             out.append(fd)
+        self.pipes[out[1]] = out[0]
         return tuple(out)
 
     def close(self, a, k):
@@ -163,12 +172,16 @@ class OS:
         v = q.pop(0)
         if isinstance(v, str):
             raise FoldedRaise(ExcName(v), "os.read")
+        if len(v) > a[1]:
+            q.insert(0, v[a[1]:])
         return v[:a[1]]
 
     def write(self, a, k):
         self._call("os.write")
         self._open(a[0], "write")
         self.written.append((a[0], a[1]))
+        if a[0] in self.pipes:
+            self.data.setdefault(self.pipes[a[0]], []).append(a[1])
         return len(a[1])
 
     # ---- signal -----------------------------------------------------------------------------------------
@@ -197,15 +210,27 @@ class OS:
     # ---- select / time ----------------------------------------------------------------------------------
     def select(self, a, k):
         self._call("select.select")
-        if not self.ready:
-            return ([], [], [])          # timeout
-        v = self.ready.pop(0)
-        if isinstance(v, str):
-            raise FoldedRaise(ExcName(v, errno=4), "select.select")
-        return ([fd for fd in v if fd in a[0]], [], [])
+        self.select_calls.append((list(a[0]), a[3] if len(a) > 3 else None))
+        if self.on_select is not None:
+            hook, self.on_select = self.on_select, None
+            hook()                       # something another thread does while this request is blocked in select
+        if self.ready:
+            v = self.ready.pop(0)
+            if isinstance(v, str):
+                raise FoldedRaise(ExcName(v, errno=4), "select.select")
+            return ([fd for fd in a[0] if fd in v], [], [])
+        # descriptors with data pending are ready, in the order they were asked about
+        rs = [fd for fd in a[0] if self.data.get(fd)]
+        if rs:
+            return (rs, [], [])
+        timeout = a[3] if len(a) > 3 else None
+        if timeout is None:
+            raise WouldBlock("select with no timeout on descriptors %s, none of which will ever become ready, blocks forever" % (list(a[0]),))
+        self.clock += timeout            # the wait times out
+        return ([], [], [])
 
     def time(self, a, k):
-        self.clock += 0.25
+        self.clock += self.tick
         return self.clock
 
 
